@@ -16,7 +16,7 @@ RULE = ('configurations = routine x input x budget; inputs: every labelled 4-nod
         '(binary, distinct weights, and on a subset weights of 1e-9, negative weights, Fortran-ordered input), named 5-6 node graphs (path, cycle, star+edge, bow-tie, matching, bridged '
         'triangles), every 4-node digraph with 2-3 (thorough 4) arcs containing two vertex-disjoint arcs, named 5-6 node '
         'digraphs; budgets 0,1,2 outer iterations (thorough 3); latticisers with all n! initial node orders, with D absent, with the default D passed explicitly and with another symmetric D; '
-        'randomizer_bin_und on every 5-node graph x alpha in {0,0.5,1} by plain enumeration; every configuration is '
+        'randomizer_bin_und on every 4- and 5-node graph x alpha in {0,0.5,1} and on the 110 six-node graphs made of an unconnected node (first or last) plus a 5-node rest with 8 or 9 connections (complement path and masked full node together) x alpha in {0.5,1} by plain enumeration; every configuration is '
         'explored over ALL generator answers; a configuration is non-trivial when >= 2 distinct outputs are reachable')
 ASSUMPTIONS = ['continuous draws are only compared with thresholds by these routines; they are represented by one point on '
                'each side of every threshold', 'state merging by live-variable state keys (DESIGN.md 1.3), cross-checked '
@@ -129,6 +129,20 @@ def catalogue(thorough):
             A = ss.und_graph(n, (0, 1), idx)
             for alpha in (0.0, 0.5, 1.0):
                 cfgs.append({'fn': 'randomizer_bin_und', 'tag': 'und%d_%d' % (n, idx), 'W': A,
+                             'params': {'alpha': alpha}})
+    # 6 nodes: a dense graph (so the routine works on the complement) with an unconnected node (so the complement has a
+    # fully connected node, which is masked and restored) - the two special paths together, which no 5-node graph that can
+    # still be rewired reaches; the unconnected node first or last, every 5-node rest with 8 or 9 of its 10 connections
+    for idx in range(ss.und_count(5, (0, 1))):
+        B = ss.und_graph(5, (0, 1), idx)
+        if B.sum() / 2 not in (8, 9):
+            continue
+        for pos in (0, 5):
+            keep = [q for q in range(6) if q != pos]
+            A = np.zeros((6, 6))
+            A[np.ix_(keep, keep)] = B
+            for alpha in (0.5, 1.0):
+                cfgs.append({'fn': 'randomizer_bin_und', 'tag': 'und6iso%d_%d' % (pos, idx), 'W': A,
                              'params': {'alpha': alpha}})
     return cfgs
 
